@@ -127,6 +127,8 @@ def run_battery(groups: list[dist.GroupSpec], power: float, outcomes: dict[int, 
             err = None
             if not t.done():
                 err = "distribute_power never returned"
+            elif t.cancelled():
+                err = "distribute_power ended with a CancelledError although nobody cancelled it"
             elif t.exception() is not None:
                 err = repr(t.exception())
             updates = list(m._component_pool_status_tracker.updates)
@@ -170,6 +172,8 @@ def run_pv(inverters: list[tuple[float, float]], power: float, outcomes: dict[in
             err = None
             if not t.done():
                 err = "distribute_power never returned"
+            elif t.cancelled():
+                err = "distribute_power ended with a CancelledError although nobody cancelled it"
             elif t.exception() is not None:
                 err = repr(t.exception())
             calls = list(api.set_power_calls)
@@ -226,6 +230,8 @@ class BatterySession:
         err = None
         if not t.done():
             err = "distribute_power never returned"
+        elif t.cancelled():
+            err = "distribute_power ended with a CancelledError although nobody cancelled it"
         elif t.exception() is not None:
             err = repr(t.exception())
         return {"result": out, "calls": self.api.set_power_calls[n0:], "error": err}
